@@ -491,6 +491,20 @@ fn exec(t: &[&str]) -> String {
             }
         },
         ["REQGRT", hl, method, target, hs, body] => {
+            // `hl` alone: header line limit for generate and parse, no other limit;
+            // `rl,hl,mx`: the three limits of the parsing Request in the spelling of REQ ops (generate uses `hl`)
+            let (hl, pcfg): (&str, Option<ReqCfg>) = if hl.contains(',') {
+                let f: Vec<&str> = hl.split(',').collect();
+                if f.len() != 3 {
+                    return "bad-op".into();
+                }
+                match (lim(f[0]), lim(f[1]), lim(f[2])) {
+                    (Some(a), Some(b), Some(c)) => (if b.keep { "1000" } else { f[1].trim_start_matches('D') }, Some(ReqCfg { rl: a, hl: b, max: c })),
+                    _ => return "bad-op".into(),
+                }
+            } else {
+                (*hl, None)
+            };
             match (opt_nat(hl), unhex(method).and_then(|m| String::from_utf8(m).ok()), unhex(target).and_then(|m| String::from_utf8(m).ok()), parse_headers(hs), unhex(body)) {
                 (Some(hl), Some(method), Some(target), Some(hs), Some(body)) => {
                     let uri = match rhymuri::Uri::parse(&target) {
@@ -510,7 +524,7 @@ fn exec(t: &[&str]) -> String {
                     match bytes {
                         None => format!("{} || {}", shown, g1),
                         Some(b) => {
-                            let (p, r2) = run_req(ReqCfg { rl: None.into(), hl: hl.into(), max: None.into() }, &[b]);
+                            let (p, r2) = run_req(pcfg.unwrap_or(ReqCfg { rl: None.into(), hl: hl.into(), max: None.into() }), &[b]);
                             match r2 {
                                 None => format!("{} || {} || {}", shown, g1, p),
                                 Some(r2) => {
